@@ -680,6 +680,39 @@ theorem openArchive_entries_bound {fa : Option Nat} {d d' : Dev} {a : Archive}
         omega
       · omega
 
+/-- `openArchiveAlloc` (the function the translated `ZipArchive::new` is tied to): the entry bound of
+`openArchive`, and where the requested capacity comes from. -/
+theorem openArchiveAlloc_bounds {fa : Option Nat} {d d' : Dev} {a : Archive} {cap : Nat}
+    (h : openArchiveAlloc fa d = (.ok (a, cap), d')) :
+    46 * a.files.length ≤ d.buf.length ∧
+    ∃ e cde d1 n, findAndParseEocd fa d = (.ok (e, cde), d1) ∧ cap = fileCapacity n cde := by
+  unfold openArchiveAlloc at h
+  obtain ⟨⟨footer, cde⟩, d1, h1, h2⟩ := M.bind_ok_inv h
+  dsimp only at h2
+  split at h2
+  · exact (M.throw_ok_inv h2).elim
+  · obtain ⟨⟨off, ds, n⟩, d2, h3, h4⟩ := M.bind_ok_inv h2
+    dsimp only at h4
+    obtain ⟨r, d3, h5, h6⟩ := M.bind_ok_inv h4
+    cases r with
+    | error e => exact (M.throw_ok_inv h6).elim
+    | ok v =>
+      dsimp only at h6
+      obtain ⟨files, d4, h7, h8⟩ := M.bind_ok_inv h6
+      obtain ⟨he, _⟩ := M.pure_ok_inv h8
+      obtain ⟨rfl, rfl⟩ := Prod.mk.inj he
+      obtain ⟨hlen, _, hp, hl⟩ := readCentralLoop_ok off n h7
+      have b1 := findAndParseEocd_readOnly.ok h1
+      have b2 := (getDirectoryCounts_readOnly _ _).ok h3
+      have b3 := (ReadOnly.attempt (ReadOnly.seek _)).ok h5
+      have hb : d3.buf.length = d.buf.length := by rw [b3, b2, b1]
+      refine ⟨?_, footer, cde, d1, n, h1, rfl⟩
+      show 46 * files.length ≤ d.buf.length
+      by_cases hn : 0 < n
+      · have := hl hn
+        omega
+      · omega
+
 /-! ## `new_append`: where the writer stands afterwards -/
 
 theorem newAppend_loop_ok (off : Nat) : ∀ (n : Nat) {fa : Option Nat} {d d' : Dev}
